@@ -16,7 +16,7 @@ UNITS = {}
 
 class Unit:
     def __init__(self, name, props, targets, harness, mode="proof", bound=None, replay=None, inlined=(),
-                 assumed=(), doc="", expect_fail=(), max_paths=4000, fallback_for=None, thorough_only=False):
+                 assumed=(), doc="", expect_fail=(), max_paths=4000, fallback_for=None, thorough_only=False, replay_decides=False):
         self.name = name
         self.props = props
         self.targets = list(targets)  # real functions whose bodies this unit executes under contract
@@ -31,6 +31,7 @@ class Unit:
         self.max_paths = max_paths
         self.fallback_for = fallback_for
         self.thorough_only = thorough_only
+        self.replay_decides = replay_decides
 
 
 def unit(name, props, targets, mode="proof", **kw):
